@@ -470,7 +470,7 @@ func runCheck(id, tier string) int {
 				dst := filepath.Join(replayDir, fmt.Sprintf("fail-%s-seed%d-%s", tier, seed, filepath.Base(ff)))
 				copyFile(ff, dst)
 				r := runReplay(bin, id, dst)
-				if r.Status == "fail" || r.Status == "died" || cfg.Flaky {
+				if r.Status == "fail" || r.Status == "died" || cfg.Flaky || scheduleDependent(id, subName) {
 					fmt.Print(tail(oc.output, 40))
 					violations = append(violations, dst)
 				} else {
@@ -728,6 +728,22 @@ func runCheck(id, tier string) int {
 func hasHard(inc []string) bool {
 	for _, s := range inc {
 		if !strings.Contains(s, "wall-clock cap") {
+			return true
+		}
+	}
+	return false
+}
+
+// scheduleDependent reports whether a sub-check is listed in the package's FLAKY_SUBS.txt: its
+// cases start goroutines, so a failure seen once (against an explicit oracle) is a violation
+// even when the saved case passes on replay.
+func scheduleDependent(id, sub string) bool {
+	b, err := os.ReadFile(filepath.Join(pkgDir(id), "FLAKY_SUBS.txt"))
+	if err != nil {
+		return false
+	}
+	for _, l := range strings.Split(string(b), "\n") {
+		if strings.TrimSpace(l) == sub {
 			return true
 		}
 	}
